@@ -27,14 +27,16 @@ func init() {
 	Recorders["conc"] = recordConc
 }
 
-var concTexts = []string{"a + b * 2", "$t = a, $t + b", "a + b", "[regexp(s1, 'ab'), regexp(s2, '^(a)*$'), regexp(s2, 'ab')]", "(m).a + b"}
+var concTexts = []string{"a + b * 2", "$t = a, $t + b", "a + b", "[regexp(s1, 'ab'), regexp(s2, '^(a)*$'), regexp(s2, 'ab')]", "(m).a + b",
+	"round(a) * 1000 + roundBank(b)", "round(a) + 1", "lower(s1)"}
 var concParseTexts = []string{"'\\u4F11\\u4F34'+'\\x41'", "'\\u0041\\x62\\u4e2d'", "1 +\n (2 *"}
 var concDatas = mustParse(`<< [a |-> <<"int", 1>>, b |-> <<"int", 2>>],
   [a |-> <<"dec", FALSE, <<1>>, 1>>, b |-> <<"f64", FALSE, <<5>>, -1>>],
   [a |-> <<"int64", FALSE, <<9,0,0,7,1,9,9,2,5,4,7,4,0,9,9,3>>>>, b |-> <<"int", -3>>],
   [s1 |-> <<"str", <<99,97,98>>>>, s2 |-> <<"str", <<97,97,97>>>>],
   [s1 |-> <<"str", <<98,97>>>>, s2 |-> <<"str", <<97,98>>>>],
-  [m |-> <<"map", [a |-> <<"int", 4>>]>>, b |-> <<"dec", FALSE, <<1,5>>, -1>>] >>`).([]any)
+  [m |-> <<"map", [a |-> <<"int", 4>>]>>, b |-> <<"dec", FALSE, <<1,5>>, -1>>],
+  [a |-> <<"dec", FALSE, <<2,6>>, -1>>, b |-> <<"dec", FALSE, <<4,5>>, -1>>] >>`).([]any)
 
 var (
 	sharedOnce  sync.Once
@@ -325,8 +327,13 @@ func recordConc(args []string) int {
 						if ti == 3 {
 							di = 3 + (g+it)%2 // the regexp formula reads s1, s2
 						}
-						if ti == 4 {
+						switch ti {
+						case 4:
 							di = 5
+						case 5, 6:
+							di = 6 // exact ties for round / roundBank
+						case 7:
+							di = 3 + (g+it)%2
 						}
 						dm, err := data.BuildMap(concDatas[di], nil)
 						if err != nil {
